@@ -88,6 +88,7 @@ static void build_object(ezc3d::c3d& c, Built& B) {
     if (ex_type && ex_group == 2) { Param q("Second", "d2"); q.set(std::vector<int>() = {7, -8, 9}, std::vector<size_t>() = {3}); c.parameter(grp, q); }
   }
   (void)lockgrp;
+  if (__vp_cfg("point_scale")) { Param sc("SCALE"); sc.set(std::vector<float>() = {__vp_sym_f32("pscale")}); c.parameter("POINT", sc); }
   // alignment filler: parameters whose descriptions have concrete lengths summing to cfg pad (steers the
   // parameter-section length through all residues modulo the 512-byte block size)
   int pad = __vp_cfg("pad");
